@@ -601,11 +601,12 @@ Proof.
   - apply occurs_sentinel_leaf in H1, H2. congruence.
   - exfalso. exact (H s1 H1).
   - apply occurs_wrapN in H1, H2.
-    destruct H1 as (i1 & [E1|[E1|[]]] & O1); destruct H2 as (i2 & [E2|[E2|[]]] & O2);
-      injection E1 as <-; injection E2 as <-;
-      try (exfalso; eapply H; eassumption).
+    destruct H1 as (i1 & [E1|[E1|[]]] & O1); injection E1 as <-;
+      [|exfalso; exact (H _ O1)].
+    destruct H2 as (i2 & [E2|[E2|[]]] & O2); injection E2 as <-;
+      [|exfalso; exact (H _ O2)].
     apply occurs_sentinel_leaf in O1, O2. congruence.
-  - apply occurs_wrap1_some in H1, H2. eauto.
+  - apply (proj1 (occurs_wrap1_some _ _)) in H1. apply (proj1 (occurs_wrap1_some _ _)) in H2. eauto.
 Qed.
 
 Theorem lib_deny_end_disjoint : forall e, lib_err e -> ~ (is_deny e = true /\ is_end e = true).
@@ -653,15 +654,17 @@ Proof.
     { split; [intros _; right; exists e; auto|reflexivity]. }
     destruct (go_is ErrMax e) eqn:M.
     + split; [discriminate|].
-      intros [H|(e' & He & [H|[H|(_ & H)]])]; try discriminate.
-      injection He as <-. apply go_is_iff in M. contradiction.
+      intros [H|(e' & He & Hc)]; [discriminate|]. injection He as <-.
+      destruct Hc as [H|[H|(_ & H)]]; [congruence|congruence|].
+      apply go_is_iff in M. contradiction.
     + destruct (has_sub_err e) eqn:S.
       * split; [intros _|reflexivity]. right; exists e; split; [reflexivity|].
         right; right. split; [apply has_sub_err_iff, S|].
         intro Ho. apply go_is_iff in Ho. congruence.
       * split; [discriminate|].
-        intros [H|(e' & He & [H|[H|(H & _)]])]; try discriminate.
-        injection He as <-. apply has_sub_err_iff in H. congruence.
+        intros [H|(e' & He & Hc)]; [discriminate|]. injection He as <-.
+        destruct Hc as [H|[H|(H & _)]]; [congruence|congruence|].
+        apply has_sub_err_iff in H. congruence.
   - split; [intros _; left; reflexivity|reflexivity].
 Qed.
 
@@ -698,7 +701,7 @@ Proof.
   - apply occurs_wrapN in Hm. destruct Hm as (i & [E|[E|[]]] & Ho); injection E as <-.
     + apply occurs_sentinel_leaf in Ho. discriminate.
     + exact (H _ Ho).
-  - apply IHlib_err. split; [apply occurs_wrap1_some, Hm|].
+  - apply IHlib_err. split; [exact (proj1 (occurs_wrap1_some _ _) Hm)|].
     apply occurs_inv in Hs.
     destruct Hs as [Hs | [(j & Hj & Ho) | (ws & j & Hj & _)]]; try discriminate.
     injection Hj as <-. exact Ho.
